@@ -7,13 +7,12 @@ git -C /repo worktree add -q $WT HEAD || exit 2
 export CARGO_TARGET_DIR=/tmp/confirm-target
 for id in "$@"; do
   d=/verif/seeded/$id
-  crate=rumqttc; [[ $id == C13* || $id == C01* || $id == C03* || $id == C06* || $id == C08* || $id == C09* || $id == C14* || $id == C15* || $id == C16* || $id == C17* || $id == C19* || $id == C20* ]] && crate=rumqttd
-  [[ -f $d/crate ]] && crate=$(cat $d/crate)
+  place=$(cat $d/place)
   cd $WT && git checkout -q -- . && git clean -fdq
-  # place the demo
-  if [[ $crate == rumqttc ]]; then cp $d/demo.rs rumqttc/tests/seeded_demo.rs; demo="cargo test -p rumqttc --offline --test seeded_demo";
-  else python3 - $d/demo.rs <<'PY'
-import sys,re
+  if [[ $place == segments ]]; then
+    crate=rumqttd
+    python3 - $d/demo.rs <<'PY'
+import sys
 demo=open(sys.argv[1]).read()
 p='rumqttd/src/segments/mod.rs'
 s=open(p).read()
@@ -21,7 +20,12 @@ i=s.rindex('}')
 s=s[:i]+demo+'\n}\n'
 open(p,'w').write(s)
 PY
-  demo="cargo test -p rumqttd --offline --lib c13_demo"; fi
+    demo="cargo test -p rumqttd --offline --lib c13_demo"
+  else
+    crate=${place%%/*}
+    cp $d/demo.rs $place
+    demo="cargo test -p $crate --offline --test seeded_demo"
+  fi
   r0=$($demo 2>&1 | grep -E "^test result" | tr '\n' ' ')
   git apply $d/patch.diff || { echo "$id: patch does not apply" > $d/confirm.txt; continue; }
   r1=$($demo 2>&1 | grep -E "^test result" | tr '\n' ' ')
